@@ -382,11 +382,148 @@ func derivesFromUserRecord(c *km.Ctx, s *km.Sem, v ssa.Value, mapField string, i
 		}
 		return len(x.Edges) > 0
 	case *ssa.Call:
-		// a getter helper such as getPushPollTransaction(key): result derives from the map with the key parameter
-		return false
+		// a getter / consumer helper such as consumeChallenge(user): every record it returns is the map's entry for
+		// its key parameter (or the zero value), and the key argument here is the authenticated user
+		g := km.StaticCallee(x.Common())
+		if g == nil || g.Blocks == nil || !c.InModule(g) {
+			return false
+		}
+		args := km.CallArgs(x.Common())
+		n := 0
+		for _, rc := range s.RetCases(g) {
+			rv := km.Unwrap(rc.Results[0])
+			if cst, isC := rv.(*ssa.Const); isC {
+				_ = cst
+				continue // zero value
+			}
+			if u, isU := rv.(*ssa.UnOp); isU {
+				if a, isA := u.X.(*ssa.Alloc); isA && len(storesInto(a)) == 0 {
+					continue // zero composite literal
+				}
+			}
+			keyIsParam := func(k ssa.Value) bool {
+				p, ok := km.Unwrap(k).(*ssa.Parameter)
+				if !ok {
+					return false
+				}
+				for i, q := range g.Params {
+					if q == p && i < len(args) {
+						return isAuthUser(args[i])
+					}
+				}
+				return false
+			}
+			if !derivesFromUserRecord(c, s, rv, mapField, keyIsParam, depth+1) {
+				return false
+			}
+			n++
+		}
+		return n > 0
 	}
 	return false
 }
+
+func storesInto(a *ssa.Alloc) []*ssa.Store {
+	var out []*ssa.Store
+	var walk func(v ssa.Value)
+	walk = func(v ssa.Value) {
+		if v.Referrers() == nil {
+			return
+		}
+		for _, ref := range *v.Referrers() {
+			switch x := ref.(type) {
+			case *ssa.Store:
+				if x.Addr == v {
+					out = append(out, x)
+				}
+			case *ssa.FieldAddr:
+				walk(x)
+			case *ssa.IndexAddr:
+				walk(x)
+			}
+		}
+	}
+	walk(a)
+	return out
+}
+
+// challengeConsume: where a handler looks up and deletes the pending hardware-token challenge - in the handler
+// itself or in a helper it calls with the user as key.
+type challengeConsume struct {
+	fn     *ssa.Function // function holding the lookup and the delete
+	lookup *ssa.Lookup
+	del    *ssa.Call
+	call   ssa.CallInstruction // the helper call in the handler (nil when inline)
+}
+
+func findChallengeConsume(c *km.Ctx, handler *ssa.Function) *challengeConsume {
+	scan := func(fn *ssa.Function) *challengeConsume {
+		cc := &challengeConsume{fn: fn}
+		km.Instrs(fn, func(in ssa.Instruction) {
+			if lk, ok := in.(*ssa.Lookup); ok && mentionsField(lk.X, "localAuthData") {
+				cc.lookup = lk
+			}
+			if cl, ok := in.(*ssa.Call); ok {
+				if b, ok := cl.Common().Value.(*ssa.Builtin); ok && b.Name() == "delete" && mentionsField(cl.Common().Args[0], "localAuthData") {
+					cc.del = cl
+				}
+			}
+		})
+		if cc.lookup != nil && cc.del != nil {
+			return cc
+		}
+		return nil
+	}
+	if cc := scan(handler); cc != nil {
+		return cc
+	}
+	for _, ci := range km.CallsIn(handler) {
+		if g := km.StaticCallee(ci.Common()); g != nil && g.Blocks != nil && g.Pkg != nil && g.Pkg.Pkg.Path() == KMD {
+			if cc := scan(g); cc != nil {
+				cc.call = ci
+				return cc
+			}
+		}
+	}
+	return nil
+}
+
+// keyIs: the map key used inside the consume site is the handler's value satisfying pred
+func (cc *challengeConsume) keyIs(key ssa.Value, pred func(ssa.Value) bool) bool {
+	if cc.call == nil {
+		return pred(key)
+	}
+	p, ok := km.Unwrap(key).(*ssa.Parameter)
+	if !ok {
+		return false
+	}
+	args := km.CallArgs(cc.call.Common())
+	for i, q := range cc.fn.Params {
+		if q == p && i < len(args) {
+			return pred(args[i])
+		}
+	}
+	return false
+}
+
+// dominatesIn: the consume happens before `at` in the handler
+func (cc *challengeConsume) dominatesIn(at ssa.Instruction) bool {
+	if cc.call == nil {
+		return km.InstrDominates(cc.del, at) && km.InstrDominates(cc.lookup, at)
+	}
+	if !km.InstrDominates(cc.call, at) {
+		return false
+	}
+	// inside the helper the delete precedes every return the lookup precedes
+	ok := true
+	km.Instrs(cc.fn, func(in ssa.Instruction) {
+		if ret, isRet := in.(*ssa.Return); isRet && km.InstrDominates(cc.lookup, ret) && !km.InstrDominates(cc.del, ret) {
+			ok = false
+		}
+	})
+	return ok
+}
+
 
 // derivesFromUserProfile: v is computed from the profile returned by LoadUserProfile(authUser).
 func derivesFromUserProfile(v ssa.Value, isAuthUser func(ssa.Value) bool, depth int) bool {
@@ -614,23 +751,12 @@ func checkOneTime(c *km.Ctx, s *km.Sem, upd *ssa.Function, isAuthUser func(ssa.V
 		if fn == nil {
 			continue
 		}
-		var lookup *ssa.Lookup
-		var del ssa.Instruction
-		km.Instrs(fn, func(in ssa.Instruction) {
-			if lk, ok := in.(*ssa.Lookup); ok && mentionsField(lk.X, "localAuthData") {
-				lookup = lk
-			}
-			if cl, ok := in.(*ssa.Call); ok {
-				if b, ok := cl.Common().Value.(*ssa.Builtin); ok && b.Name() == "delete" && mentionsField(cl.Common().Args[0], "localAuthData") {
-					del = in
-				}
-			}
-		})
-		if lookup == nil || del == nil {
-			r.Add("R-C05-4", km.FuncName(fn), "challenge consumed", c.P.Pos(fn.Pos()), "lookup and delete of localAuthData[authUser]", sprintf("lookup=%v delete=%v", lookup != nil, del != nil), false)
+		cc := findChallengeConsume(c, fn)
+		if cc == nil {
+			r.Add("R-C05-4", km.FuncName(fn), "challenge consumed", c.P.Pos(fn.Pos()), "lookup and delete of localAuthData[authUser], here or in a helper called with the user", "none found", false)
 			continue
 		}
-		keyOK := isAuthUser(lookup.Index) && isAuthUser(del.(*ssa.Call).Common().Args[1])
+		keyOK := cc.keyIs(cc.lookup.Index, isAuthUser) && cc.keyIs(cc.del.Common().Args[1], isAuthUser)
 		notExpired := km.Prim{Name: "challenge unexpired", Direct: func(f km.Fact) bool {
 			cl, ok := f.X.(*ssa.Call)
 			return f.Op == token.ILLEGAL && !f.Pol && ok && km.CalleeFull(cl.Common()) == "(time.Time).Before" && mentionsField(cl.Common().Args[0], "ExpiresAt")
@@ -639,7 +765,7 @@ func checkOneTime(c *km.Ctx, s *km.Sem, upd *ssa.Function, isAuthUser func(ssa.V
 			if km.StaticCallee(ci.Common()) != upd {
 				continue
 			}
-			dom := km.InstrDominates(del, ci) && km.InstrDominates(lookup, ci)
+			dom := cc.dominatesIn(ci)
 			st := c.F.At(ci)
 			unexp := st.All(func(k km.Conj) bool { return s.Holds(k, notExpired) })
 			r.Add("R-C05-4", km.FuncName(fn), "challenge consumed before upgrade", posOf(c, ci), "challenge of authUser looked up, deleted (consumed) and unexpired before the level is raised", sprintf("key=authUser:%v delete-dominates=%v unexpired=%v", keyOK, dom, unexp), keyOK && dom && unexp)
